@@ -261,6 +261,13 @@ def template_histories(tier, seed):
         [["set", "c/b/a", ["int", 1]], ["commit"], ["del", "c"], ["commit"], ["grp", "c/b/a"]],
         [["set", "c/b/a", ["int", 1]], ["commit"], ["del", "c/b"], ["set", "c/b/a/d", ["int", 2]]],
         [["set", "c", ["int", 1]], ["commit"], ["del", "c"], ["set", "c/b", ["int", 2]], ["commit"], ["set", "c/d", ["int", 3]]],
+        # a creation that HDF5 refuses, below / at a path deleted in this patch or an older one: no effect
+        [["set", "a/x", ["int", 1]], ["commit"], ["del", "a"], ["set", "a/b", ["unstorable"]]],
+        [["set", "a/g/y", ["int", 1]], ["sattr", "a", "k", ["int", 2]], ["commit"], ["del", "a"], ["set", "a/g/z", ["unstorable"]], ["commit"], ["sattr", "/", "t", ["int", 1]]],
+        [["set", "a", ["int", 1]], ["commit"], ["del", "a"], ["set", "a/b", ["unstorable"]]],
+        [["set", "a/x", ["int", 1]], ["commit"], ["del", "a/x"], ["set", "a/x/deep/er", ["unstorable"]]],
+        [["set", "a/x", ["int", 1]], ["commit"], ["del", "a"], ["commit"], ["set", "a/b/c", ["unstorable"]], ["set", "a", ["unstorable"]]],
+        [["set", "a/x", ["int", 1]], ["commit"], ["del", "a"], ["at", "/", ["set", "/a/b", ["unstorable"]]], ["grp", "a"]],
         # copies / moves of nodes living in older containers
         [["set", "a/x", ["int", 1]], ["sattr", "a", "k", ["int", 2]], ["commit"], ["copy", "a", "b"], ["commit"], ["del", "a"], ["commit"], ["sattr", "b", "z", ["int", 3]]],
         [["set", "a/x", ["int", 1]], ["sattr", "a/x", "k", ["int", 2]], ["commit"], ["move", "a", "b/c"], ["commit"], ["set", "a/x", ["int", 5]]],
